@@ -491,6 +491,11 @@ func RPCReadSector(ctx context.Context, t TransportClient, prices rhp4.HostPrice
 	var resp rhp4.RPCReadSectorResponse
 	if err := rhp4.ReadResponse(s, &resp); err != nil {
 		return RPCReadSectorResult{}, fmt.Errorf("failed to read response: %w", err)
+	} else if resp.DataLength != length {
+		// the proof below covers whole leaves; without this check a host could
+		// stream the leaves enclosing an unaligned range and have bytes outside
+		// the requested range written to w.
+		return RPCReadSectorResult{}, clientErrf("expected %d bytes of sector data, host announced %d", length, resp.DataLength)
 	}
 
 	start := req.Offset / rhp4.LeafSize
